@@ -357,23 +357,37 @@ class Builder:
                         p['default'] = ('lit', self.literal_for(t))
                     params.append(p)
                 defs.append({'k': 'annotation_type', 'name': name, 'doc': None, 'params': params})
-        for _ in range(g.int(1, 4)):
+        forced = []
+        if cfg.annot_bias and cfg.omitted and g.p(60):
+            forced += ['Omitted'] * g.int(2, 3)
+        if cfg.annot_bias and cfg.custom_annotations and g.p(50):
+            forced += ['custom', 'custom']
+            while len([d for d in defs if d['k'] == 'annotation_type']) < 2:
+                defs.append({'k': 'annotation_type', 'name': self.new_type_name(ns), 'doc': None,
+                             'params': [{'name': 'level', 'type': prim('Int32'), 'doc': None,
+                                         'default': ('lit', len(defs)), 'annots': []}]})
+        used_callers = []
+        used_custom = []
+        for _ in range(g.int(1, 4) + len(forced)):
             kinds = [(2, 'Deprecated'), (2, 'Preview')] + ([(4, 'Omitted')] if cfg.omitted else [])
             if cfg.redactors:
                 kinds += [(3, 'RedactedBlot'), (3, 'RedactedHash')]
             customs = [d for d in defs if d['k'] == 'annotation_type']
             if customs:
                 kinds.append((4, 'custom'))
-            kind = g.weighted(kinds)
+            kind = forced.pop() if forced else g.weighted(kinds)
             name = self.new_type_name(ns)
             a = {'k': 'annotation', 'name': name, 'atype': (None, kind), 'args': [], 'kwargs': {}}
             if kind == 'Omitted':
-                a['args'] = [g.choice(CALLERS)]
+                fresh_callers = [c for c in CALLERS if c not in used_callers] or CALLERS
+                a['args'] = [g.choice(fresh_callers)]
+                used_callers.append(a['args'][0])
             elif kind in ('RedactedBlot', 'RedactedHash'):
                 if g.p(50):
                     a['args'] = [g.choice(['[a-z]+', '(\\d)\\d*', '(^.)', 'x(.*)y', '(a)|(b)'])]
             elif kind == 'custom':
-                at = g.choice(customs)
+                at = g.choice([c for c in customs if c['name'] not in used_custom] or customs)
+                used_custom.append(at['name'])
                 a['atype'] = (None, at['name'])
                 # LR: all positional or all keyword, never mixed
                 vals = []
